@@ -135,3 +135,118 @@ func extTransferItem(sb *strings.Builder, repo string, it Item, pc *pkgConsts, e
 	fmt.Fprintf(sb, "(* from %s : %s, loop condition *)\nDefinition %s_cond %s : bool :=\n  %s.\n", it.File, it.Func, it.Name, strings.Join(ps, " "), fix(cond))
 	fmt.Fprintf(sb, "(* from %s : %s, loop body: new value of %s *)\nDefinition %s_step %s : %s :=\n  %s.\n", it.File, it.Func, strings.Join(vars, ", "), it.Name, strings.Join(ps, " "), rty, fix(step))
 }
+
+// {"kind":"forsearch","file":"telegram/downloader/cdn_plan.go","func":"largestCDNValidLimit",
+//  "name":"lcv","params":["size","max"]}
+//   a function of the shape
+//       for v := INIT; COND; POST { if FOUND { return RESULT } }
+//       return DEFAULT
+//   emits <name>_init, <name>_cond, <name>_found, <name>_result, <name>_post (new value of the loop
+//   variable) and <name>_default; the hand model iterates them with fuel. The loop variable must be
+//   the first parameter of the item. Any other shape -> the translator refuses.
+func extSearchItem(sb *strings.Builder, repo string, it Item, pc *pkgConsts, emitConst func(string), wrapName string) {
+	f, err := parser.ParseFile(fset, filepath.Join(repo, it.File), nil, 0)
+	if err != nil {
+		die("parse %s: %v", it.File, err)
+	}
+	fd := findFunc(f, it.Func)
+	if fd == nil || fd.Body == nil || len(fd.Body.List) != 2 {
+		die("%s in %s: expected `for ... { if c { return e } }; return d` (shape not understood)", it.Func, it.File)
+	}
+	loop, ok1 := fd.Body.List[0].(*ast.ForStmt)
+	ret, ok2 := fd.Body.List[1].(*ast.ReturnStmt)
+	if !ok1 || !ok2 || loop.Init == nil || loop.Cond == nil || loop.Post == nil || len(loop.Body.List) != 1 || len(ret.Results) != 1 {
+		die("%s in %s: expected `for init; cond; post { if c { return e } }; return d` (shape not understood)", it.Func, it.File)
+	}
+	ifs, ok := loop.Body.List[0].(*ast.IfStmt)
+	if !ok || ifs.Init != nil || ifs.Else != nil || len(ifs.Body.List) != 1 {
+		die("%s in %s: loop body must be a single `if c { return e }` (shape not understood)", it.Func, it.File)
+	}
+	inner, ok := ifs.Body.List[0].(*ast.ReturnStmt)
+	if !ok || len(inner.Results) != 1 {
+		die("%s in %s: loop body must be a single `if c { return e }` (shape not understood)", it.Func, it.File)
+	}
+	init, ok := loop.Init.(*ast.AssignStmt)
+	if !ok || len(init.Lhs) != 1 || len(init.Rhs) != 1 || len(it.Params) == 0 || show(init.Lhs[0]) != it.Params[0] {
+		die("%s in %s: loop init must define the first item parameter (shape not understood)", it.Func, it.File)
+	}
+	t := &tr{it: it, pc: pc, used: map[string]bool{}, bools: map[string]bool{}, locals: map[string]bool{}}
+	var ps []string
+	for _, p := range it.Params {
+		t.locals[p] = true
+		ps = append(ps, "("+p+" : Z)")
+	}
+	initE := t.expr(init.Rhs[0])
+	cond := t.expr(loop.Cond)
+	found := t.expr(ifs.Cond)
+	result := t.expr(inner.Results[0])
+	post := t.stmts([]ast.Stmt{loop.Post}, it.Params[0])
+	deflt := t.expr(ret.Results[0])
+	var used []string
+	for n := range t.used {
+		used = append(used, n)
+	}
+	sort.Strings(used)
+	for _, n := range used {
+		emitConst(n)
+	}
+	fix := func(s string) string {
+		return prefixConsts(strings.ReplaceAll(s, "wrap_s32", wrapName), used, it.Prefix)
+	}
+	args := strings.Join(ps, " ")
+	fmt.Fprintf(sb, "(* from %s : %s, search loop *)\n", it.File, it.Func)
+	fmt.Fprintf(sb, "Definition %s_init %s : Z :=\n  %s.\n", it.Name, args, fix(initE))
+	fmt.Fprintf(sb, "Definition %s_cond %s : bool :=\n  %s.\n", it.Name, args, fix(cond))
+	fmt.Fprintf(sb, "Definition %s_found %s : bool :=\n  %s.\n", it.Name, args, fix(found))
+	fmt.Fprintf(sb, "Definition %s_result %s : Z :=\n  %s.\n", it.Name, args, fix(result))
+	fmt.Fprintf(sb, "Definition %s_post %s : Z :=\n  %s.\n", it.Name, args, fix(post))
+	fmt.Fprintf(sb, "Definition %s_default %s : Z :=\n  %s.\n", it.Name, args, fix(deflt))
+}
+
+// {"kind":"exprarg","file":"...","func":"cdn.decrypt","stmt":"binary.BigEndian.PutUint32(","part":"1",
+//  "name":"ctr_low32","params":["offset"],"ret":"Z"}
+//   like kind "expr" for a call statement, but translates argument number "part" (0-based).
+func extArgItem(sb *strings.Builder, repo string, it Item, pc *pkgConsts, emitConst func(string), wrapName string) {
+	f, err := parser.ParseFile(fset, filepath.Join(repo, it.File), nil, 0)
+	if err != nil {
+		die("parse %s: %v", it.File, err)
+	}
+	fd := findFunc(f, it.Func)
+	if fd == nil || fd.Body == nil {
+		die("function %s not found in %s", it.Func, it.File)
+	}
+	var hits []*ast.CallExpr
+	ast.Inspect(fd.Body, func(n ast.Node) bool {
+		if s, ok := n.(*ast.ExprStmt); ok && strings.HasPrefix(show(s), it.Stmt) {
+			if c, ok := s.X.(*ast.CallExpr); ok {
+				hits = append(hits, c)
+			}
+		}
+		return true
+	})
+	idx := 0
+	fmt.Sscanf(it.Part, "%d", &idx)
+	if len(hits) != 1 || idx >= len(hits[0].Args) {
+		die("%s in %s: %d call statements start with %q (shape not understood)", it.Func, it.File, len(hits), it.Stmt)
+	}
+	t := &tr{it: it, pc: pc, used: map[string]bool{}, bools: map[string]bool{}, locals: map[string]bool{}}
+	var ps []string
+	for _, p := range it.Params {
+		t.locals[p] = true
+		ps = append(ps, "("+p+" : Z)")
+	}
+	body := strings.ReplaceAll(t.expr(hits[0].Args[idx]), "wrap_s32", wrapName)
+	var used []string
+	for n := range t.used {
+		used = append(used, n)
+	}
+	sort.Strings(used)
+	for _, n := range used {
+		emitConst(n)
+	}
+	ret := it.Ret
+	if ret == "" {
+		ret = "Z"
+	}
+	fmt.Fprintf(sb, "(* from %s : %s, argument %d of `%s...` *)\nDefinition %s %s : %s :=\n  %s.\n", it.File, it.Func, idx, it.Stmt, it.Name, strings.Join(ps, " "), ret, prefixConsts(body, used, it.Prefix))
+}
